@@ -433,6 +433,13 @@ func inferSchema(typ reflect.Type, level int) schema.Type {
 		if typ == goTypeCid || typ == goTypeCidLink {
 			return schemaTypeLink
 		}
+		if name := typ.Name(); name != "" {
+			if existing := defaultTypeSystem.TypeByName(name); existing != nil {
+				// Already inferred -- by an earlier call, or for another field of the same struct:
+				// reuse it rather than accumulating a second type of the same name (which panics).
+				return existing
+			}
+		}
 
 		fieldsSchema := make([]schema.StructField, typ.NumField())
 		for i := range fieldsSchema {
@@ -469,6 +476,9 @@ func inferSchema(typ reflect.Type, level int) schema.Type {
 		name := typ.Name()
 		if name == "" {
 			name = "List_" + etypSchema.Name()
+		}
+		if existing := defaultTypeSystem.TypeByName(name); existing != nil {
+			return existing
 		}
 		typSchema := schema.SpawnList(name, etypSchema.Name(), nullable)
 		defaultTypeSystem.Accumulate(typSchema)
